@@ -112,6 +112,17 @@ pub fn c11(o: &Opts) -> Outcome {
             if let Some(w) = c11_batch(&recs, 16, threads) { return Outcome { cases, witness: Some(w) }; }
         }
     }
+    // many records (more than any per-batch record limit a writer might use): one line per record, in order
+    {
+        let recs: Vec<Vec<u8>> = (0..2500).map(|i| { let l = 1 + (i % 5) as usize; random_seq(&mut rng, l, 0) }).collect();
+        for threads in [3usize] {
+            cases += recs.len() as u64;
+            if let Some(mut w) = c11_batch(&recs, 2, threads) {
+                for kv in w.iter_mut() { if kv.0 == "seq" { kv.1 = format!("<one of {} short records>", recs.len()); } }
+                return Outcome { cases, witness: Some(w) };
+            }
+        }
+    }
     // records with no bases between ordinary records: one (empty) row each
     {
         let recs: Vec<Vec<u8>> = vec![b"ACGT".to_vec(), vec![], b"GGGTTTA".to_vec(), vec![], vec![], b"T".to_vec(), vec![]];
